@@ -7,7 +7,7 @@
 
 use crate::ast::token_range::WithTokenSpan;
 use crate::ast::{
-    AssignmentRightHand, CaseStatement, Choice, DelayMechanism, Expression, Ident, IterationScheme,
+    CaseStatement, Choice, DelayMechanism, Expression, Ident, IterationScheme,
     LabeledSequentialStatement, LoopStatement, ReportStatement, SequentialStatement,
     SignalAssignment, WaitStatement, WithRef,
 };
@@ -157,16 +157,7 @@ impl VHDLFormatter<'_> {
         span: TokenSpan,
         buffer: &mut Buffer,
     ) {
-        if let AssignmentRightHand::Selected(selected) = &assignment.rhs {
-            // with
-            self.format_token_id(selected.expression.span.start_token - 1, buffer);
-            buffer.push_whitespace();
-            self.format_expression(selected.expression.as_ref(), buffer);
-            buffer.push_whitespace();
-            // select
-            self.format_token_id(selected.expression.span.end_token + 1, buffer);
-            buffer.push_whitespace();
-        }
+        self.format_selected_assignment_head(&assignment.rhs, buffer);
         self.format_target(&assignment.target, buffer);
         buffer.push_whitespace();
         self.format_token_id(assignment.target.span.end_token + 1, buffer);
@@ -185,6 +176,7 @@ impl VHDLFormatter<'_> {
         span: TokenSpan,
         buffer: &mut Buffer,
     ) {
+        self.format_selected_assignment_head(&assignment.rhs, buffer);
         self.format_target(&assignment.target, buffer);
         buffer.push_whitespace();
         self.format_token_id(assignment.target.span.end_token + 1, buffer);
@@ -225,6 +217,7 @@ impl VHDLFormatter<'_> {
         span: TokenSpan,
         buffer: &mut Buffer,
     ) {
+        self.format_selected_assignment_head(&assignment.rhs, buffer);
         self.format_target(&assignment.target, buffer);
         buffer.push_whitespace();
         // <=
@@ -667,5 +660,15 @@ end loop;",
             "\
 with x(0) + 1 select foo(0) := bar(1, 2) when 0 | 1, def when others;",
         );
+    }
+
+    #[test]
+    fn format_selected_signal_assignments() {
+        check_statements(&[
+            "with x(0) + 1 select foo(0) <= bar(1, 2) when 0 | 1, def when others;",
+            "with x select foo <= transport bar after 2 ns when 0, def when others;",
+            "with x select foo <= force bar when 0, def when others;",
+            "with x select foo <= force in bar when 0, def when others;",
+        ]);
     }
 }
